@@ -2,7 +2,7 @@
 import copy
 from . import core, eng, gen, engcheck
 
-THEOREMS = []
+THEOREMS = ["derivable_perm_rules", "derivable_perm_heads", "derivable_input_ext", "inputDB_perm", "run_perm_invariant", "derivable_rename_rels", "derivable_rename_consts", "derivable_rename_vars", "sat_swap_indep", "derivable_swap_indep"]
 TRUSTED = ["Lean 4.33.0 kernel", "axioms: propext, Classical.choice, Quot.sound only (audited per theorem)",
            "statement: Props/C06.lean (least model invariant under permutation of rules / heads / input rows / independent body items, "
            "transferred to the engine by run_eq_leastModel)",
